@@ -86,6 +86,7 @@ class ResWorld(World):
             ("OutOfService",),
             ("DispatchTrip", "r0"),
             ("DispatchStation", "s0", "DCFC"),
+            ("DispatchStation", "s0", "LEVEL_2"),  # the other plug type of the same station (a queued vehicle may be sent to it)
             ("DispatchStation", "s1", "DCFC"),
             ("ChargeStation", "s0", "DCFC"),
             ("ChargeStation", "s0", "LEVEL_2"),
